@@ -40,12 +40,40 @@ type c08Call struct {
 	Delim   string   `json:"delim,omitempty"`
 	Init    []string `json:"init,omitempty"` // canonical rendering of the initial destination value(s)
 	InitNil bool     `json:"init_nil,omitempty"`
+	Layout  string   `json:"layout,omitempty"` // Time / MustTime / Times / MustTimes: the layout argument
+}
+
+// a CustomFunc / MustCustomFunc call; the user function is c08CustomApply(Mode, …)
+type c08Custom struct {
+	Must    bool     `json:"must,omitempty"`
+	Values  []string `json:"v"`
+	Mode    string   `json:"mode,omitempty"` // "" strict | sloppy (writes even when it fails) | empty (returns []error{} when fine)
+	Init    []string `json:"init,omitempty"`
+	InitNil bool     `json:"init_nil,omitempty"`
+}
+
+// the user function of the harness: one error per value starting with `!`; stores the values
+func c08CustomApply(mode string, values []string, dest *[]string) []error {
+	var errs []error
+	for _, v := range values {
+		if strings.HasPrefix(v, "!") {
+			errs = append(errs, echo.NewBindingError("custom", []string{v}, "rejected by the custom function", nil))
+		}
+	}
+	if len(errs) == 0 || mode == "sloppy" {
+		*dest = append([]string{}, values...)
+	}
+	if errs == nil && mode == "empty" {
+		return []error{}
+	}
+	return errs
 }
 
 type c08Op struct {
-	Kind string   `json:"k"` // call | failfast | binderror | binderrors
-	Call *c08Call `json:"call,omitempty"`
-	Flag bool     `json:"flag,omitempty"`
+	Kind   string     `json:"k"` // call | custom | failfast | binderror | binderrors
+	Call   *c08Call   `json:"call,omitempty"`
+	Custom *c08Custom `json:"custom,omitempty"`
+	Flag   bool       `json:"flag,omitempty"`
 }
 
 type c08Field struct {
@@ -55,7 +83,7 @@ type c08Field struct {
 
 type c08Case struct {
 	Kind     string     `json:"kind"`             // vb | struct
-	Binder   string     `json:"binder,omitempty"` // vb: "" / query = QueryParamsBinder, form = FormFieldBinder (POST body), path = PathParamsBinder
+	Binder   string     `json:"binder,omitempty"` // vb: "" / query = QueryParamsBinder, form = FormFieldBinder (POST body), multipart = FormFieldBinder (multipart body), path = PathParamsBinder
 	FailFast bool       `json:"failfast,omitempty"`
 	Ops      []c08Op    `json:"ops,omitempty"`
 	Source   string     `json:"source,omitempty"` // struct: query | bind-get | form | multipart | header | param | param+query
@@ -93,12 +121,27 @@ func (u *c08Text) UnmarshalText(b []byte) error {
 	return nil
 }
 
+// c08Multi implements only the multi-value interface of bind.go (`UnmarshalParams([]string)`):
+// it stores ALL values of its key; it fails, before writing, iff one of them starts with `!`.
+type c08Multi struct{ V []string }
+
+func (u *c08Multi) UnmarshalParams(values []string) error {
+	for _, s := range values {
+		if err := c08UnmErr(s); err != nil {
+			return err
+		}
+	}
+	u.V = append([]string{}, values...)
+	return nil
+}
+
 var (
-	c08DurT  = reflect.TypeOf(time.Duration(0))
-	c08TimeT = reflect.TypeOf(time.Time{})
-	c08UnmT  = reflect.TypeOf(c08Unm{})
-	c08TextT = reflect.TypeOf(c08Text{})
-	c08VBT   = reflect.TypeOf((*echo.ValueBinder)(nil))
+	c08MultiT = reflect.TypeOf(c08Multi{})
+	c08DurT   = reflect.TypeOf(time.Duration(0))
+	c08TimeT  = reflect.TypeOf(time.Time{})
+	c08UnmT   = reflect.TypeOf(c08Unm{})
+	c08TextT  = reflect.TypeOf(c08Text{})
+	c08VBT    = reflect.TypeOf((*echo.ValueBinder)(nil))
 )
 
 // wire families (lean/EchoModel/C08.lean pElem)
@@ -112,6 +155,7 @@ const (
 	famUnm
 	famUnix
 	famByte
+	famTime // Time / MustTime / Times / MustTimes; the type index is the number of the layout within the case
 )
 
 // c08Classify maps a Go element type to the model's (family, type index).  structMode: the
@@ -130,7 +174,7 @@ func c08Classify(name string, E reflect.Type, structMode bool) (fam, ty int, ok 
 			case "UnixTimeNano":
 				return famUnix, 2, true
 			}
-			return 0, 0, false
+			return famTime, 0, true
 		}
 	}
 	if E == c08UnmT || E == c08TextT {
@@ -182,6 +226,7 @@ type c08MI struct {
 	T     reflect.Type // pointee type of the destination argument (iface methods: harness type)
 	E     reflect.Type // element type
 	Iface bool         // BindUnmarshaler / TextUnmarshaler / JSONUnmarshaler methods
+	Extra bool         // the method takes a third argument of type string (the layout of Time …)
 }
 
 var (
@@ -201,11 +246,13 @@ func c08Methods() []c08MI {
 		for i := 0; i < c08VBT.NumMethod(); i++ {
 			m := c08VBT.Method(i)
 			ft := m.Type
-			if ft.NumIn() != 3 || ft.NumOut() != 1 || ft.Out(0) != c08VBT || ft.In(1).Kind() != reflect.String {
+			// (string, dest) and (string, dest, string): the latter are Time / MustTime / Times / MustTimes today
+			extra := ft.NumIn() == 4 && ft.In(3).Kind() == reflect.String && ft.In(2).Kind() == reflect.Ptr
+			if (ft.NumIn() != 3 && !extra) || ft.NumOut() != 1 || ft.Out(0) != c08VBT || ft.In(1).Kind() != reflect.String {
 				continue
 			}
 			a := ft.In(2)
-			mi := c08MI{Name: m.Name, Must: strings.HasPrefix(m.Name, "Must")}
+			mi := c08MI{Name: m.Name, Must: strings.HasPrefix(m.Name, "Must"), Extra: extra}
 			switch {
 			case a == bu || a == ju:
 				mi.Iface, mi.Fam, mi.T, mi.E = true, famUnm, c08UnmT, c08UnmT
@@ -219,7 +266,7 @@ func c08Methods() []c08MI {
 					mi.E = mi.T.Elem()
 				}
 				fam, ty, ok := c08Classify(m.Name, mi.E, false)
-				if !ok || (mi.Slice && fam == famUnix) {
+				if !ok || (mi.Slice && fam == famUnix) || (extra != (fam == famTime)) {
 					c08Skipped = append(c08Skipped, m.Name)
 					continue
 				}
@@ -269,6 +316,9 @@ func c08Canon(v reflect.Value, fam, ty int) string {
 	switch v.Type() {
 	case c08TimeT:
 		t := v.Interface().(time.Time)
+		if fam == famTime {
+			return c08TimeCanon(t)
+		}
 		switch ty {
 		case 0:
 			return strconv.FormatInt(t.Unix(), 10)
@@ -299,10 +349,33 @@ func c08Canon(v reflect.Value, fam, ty int) string {
 	return "?" + v.Type().String()
 }
 
+// c08TimeCanon: instant and zone offset (not the zone name, not the Location pointer)
+func c08TimeCanon(t time.Time) string {
+	_, off := t.Zone()
+	return fmt.Sprintf("%d.%09d@%d", t.Unix(), t.Nanosecond(), off)
+}
+
+func c08TimeFromCanon(canon string) (time.Time, bool) {
+	var sec int64
+	var nsec, off int
+	if _, err := fmt.Sscanf(canon, "%d.%09d@%d", &sec, &nsec, &off); err != nil {
+		return time.Time{}, false
+	}
+	t := time.Unix(sec, int64(nsec)).UTC()
+	if off != 0 {
+		t = t.In(time.FixedZone("", off))
+	}
+	return t, true
+}
+
 // c08Set stores a canonical rendering into a scalar (used for initial values only).
 func c08Set(v reflect.Value, ty int, canon string) {
 	switch v.Type() {
 	case c08TimeT:
+		if t, ok := c08TimeFromCanon(canon); ok && strings.Contains(canon, "@") {
+			v.Set(reflect.ValueOf(t))
+			return
+		}
 		n, _ := strconv.ParseInt(canon, 10, 64)
 		var t time.Time
 		switch ty {
@@ -412,6 +485,23 @@ func c08InRange(n *big.Int, signed bool, bits int) bool {
 	return n.Sign() >= 0 && n.Cmp(hi) < 0
 }
 
+// c08ExtTime: the answer of time.Parse for one layout
+func c08ExtTime(layout, s string) (string, bool) {
+	t, err := time.Parse(layout, s)
+	if err != nil {
+		return "", false
+	}
+	return c08TimeCanon(t), true
+}
+
+// c08DenoteL: c08Denote for every family, with the layout for famTime
+func c08DenoteL(fam int, E reflect.Type, layout, s string) (string, bool) {
+	if fam == famTime {
+		return c08ExtTime(layout, s)
+	}
+	return c08Denote(fam, E, s)
+}
+
 // c08Ext: the answers of the parsers the model does not implement
 func c08Ext(k int, s string) (string, bool) {
 	switch k {
@@ -471,9 +561,40 @@ func c08Denote(fam int, E reflect.Type, s string) (string, bool) {
 // ---------- ext table sent to the model ----------
 
 type c08Table struct {
-	seen map[string]bool
-	toks []string
-	n    int
+	seen    map[string]bool
+	toks    []string
+	n       int
+	layouts []string // layouts of the case, numbered in order of first use
+}
+
+func (t *c08Table) layout(l string) int {
+	for i, x := range t.layouts {
+		if x == l {
+			return i
+		}
+	}
+	t.layouts = append(t.layouts, l)
+	return len(t.layouts) - 1
+}
+
+// addTime records the answer of time.Parse(layout, s) under the key 100 + number of the layout
+func (t *c08Table) addTime(layout, s string) {
+	k := 100 + t.layout(layout)
+	key := strconv.Itoa(k) + "|" + s
+	if t.seen == nil {
+		t.seen = map[string]bool{}
+	}
+	if t.seen[key] {
+		return
+	}
+	t.seen[key] = true
+	r, ok := c08ExtTime(layout, s)
+	t.n++
+	if ok {
+		t.toks = append(t.toks, wInt(k), wStr(s), "1", wStr(r))
+	} else {
+		t.toks = append(t.toks, wInt(k), wStr(s), "0")
+	}
 }
 
 func (t *c08Table) add(k int, s string) {
@@ -562,14 +683,18 @@ func c08RunVB(c *c08Case) (res Result) {
 	q := url.Values{}
 	var pnames, pvalues []string
 	for i, op := range c.Ops {
+		var vals []string
 		if op.Kind == "call" && op.Call != nil {
-			for _, v := range op.Call.Values {
-				q.Add("p"+strconv.Itoa(i), v)
-			}
-			if len(op.Call.Values) > 0 {
-				pnames = append(pnames, "p"+strconv.Itoa(i))
-				pvalues = append(pvalues, op.Call.Values[0])
-			}
+			vals = op.Call.Values
+		} else if op.Kind == "custom" && op.Custom != nil {
+			vals = op.Custom.Values
+		}
+		for _, v := range vals {
+			q.Add("p"+strconv.Itoa(i), v)
+		}
+		if len(vals) > 0 {
+			pnames = append(pnames, "p"+strconv.Itoa(i))
+			pvalues = append(pvalues, vals[0])
 		}
 	}
 	e := echo.New()
@@ -578,6 +703,24 @@ func c08RunVB(c *c08Case) (res Result) {
 	case "form":
 		req := httptest.NewRequest(http.MethodPost, "/", strings.NewReader(q.Encode()))
 		req.Header.Set(echo.HeaderContentType, echo.MIMEApplicationForm)
+		b = echo.FormFieldBinder(e.NewContext(req, httptest.NewRecorder()))
+	case "multipart": // FormFieldBinder over a multipart body (Request.Form is filled by ParseMultipartForm)
+		var buf bytes.Buffer
+		mw := multipart.NewWriter(&buf)
+		for i, op := range c.Ops {
+			var vals []string
+			if op.Kind == "call" && op.Call != nil {
+				vals = op.Call.Values
+			} else if op.Kind == "custom" && op.Custom != nil {
+				vals = op.Custom.Values
+			}
+			for _, v := range vals {
+				mw.WriteField("p"+strconv.Itoa(i), v)
+			}
+		}
+		mw.Close()
+		req := httptest.NewRequest(http.MethodPost, "/", &buf)
+		req.Header.Set(echo.HeaderContentType, mw.FormDataContentType())
 		b = echo.FormFieldBinder(e.NewContext(req, httptest.NewRecorder()))
 	case "path":
 		ctx := e.NewContext(httptest.NewRequest(http.MethodGet, "/", nil), httptest.NewRecorder())
@@ -620,8 +763,110 @@ func c08RunVB(c *c08Case) (res Result) {
 	nontrivial := false
 	hadErrThenCall := false
 	modelOK := true
+	strsMI := c08MI{Name: "CustomFunc", Slice: true, T: reflect.TypeOf([]string(nil)), E: reflect.TypeOf(""), Fam: famStr}
+	// rendering an error must not panic either (BindingError.Error)
+	render := func(i int, err error) {
+		defer func() {
+			if p := recover(); p != nil {
+				fail(i, "Error() of a recorded binding error panicked: %v", p)
+			}
+		}()
+		if err != nil && err.Error() == "" {
+			fail(i, "a recorded binding error renders as the empty string")
+		}
+	}
 	for i, op := range c.Ops {
 		switch op.Kind {
+		case "custom":
+			if op.Custom == nil {
+				continue
+			}
+			cu := op.Custom
+			vals := seen(cu.Values)
+			dest := new([]string)
+			if !cu.InitNil {
+				*dest = append([]string{}, cu.Init...)
+			}
+			initVals, initNil := c08RenderDest(strsMI, reflect.ValueOf(dest))
+			// what the function does when it is invoked on these values (computed on a copy)
+			alone := new([]string)
+			if !cu.InitNil {
+				*alone = append([]string{}, cu.Init...)
+			}
+			aloneErrs := len(c08CustomApply(cu.Mode, vals, alone))
+			aloneVals, aloneNil := c08RenderDest(strsMI, reflect.ValueOf(alone))
+			invoked, returned := 0, 0
+			var got []string
+			fn := func(values []string) []error {
+				invoked++
+				got = append([]string(nil), values...)
+				errs := c08CustomApply(cu.Mode, values, dest)
+				returned += len(errs)
+				return errs
+			}
+			before := created
+			panicked := ""
+			func() {
+				defer func() {
+					if p := recover(); p != nil {
+						panicked = fmt.Sprint(p)
+					}
+				}()
+				if cu.Must {
+					b.MustCustomFunc("p"+strconv.Itoa(i), fn)
+				} else {
+					b.CustomFunc("p"+strconv.Itoa(i), fn)
+				}
+			}()
+			if panicked != "" {
+				fail(i, "CustomFunc panicked: %s", panicked)
+				obs = append(obs, "panic")
+				modelOK = false
+				continue
+			}
+			// errors recorded by this op: those echo created itself + those the function handed back
+			delta := created - before + returned
+			vals2, isNil := c08RenderDest(strsMI, reflect.ValueOf(dest))
+			changed := !c08Same(vals2, isNil, initVals, initNil)
+			ops = append(ops, "4", wBool(cu.Must), wStrs(vals), c08DValWire(strsMI, initVals, initNil),
+				c08DValWire(strsMI, aloneVals, aloneNil), wInt(aloneErrs))
+			obs = append(obs, c08DValWire(strsMI, vals2, isNil), wInt(delta))
+			tag := "vb:CustomFunc"
+			if cu.Must {
+				tag = "vb:MustCustomFunc"
+			}
+			tags = append(tags, tag)
+			if pending > 0 {
+				hadErrThenCall = true
+			}
+			switch {
+			case failFast && pending > 0:
+				tags = append(tags, "frozen")
+				if invoked != 0 || changed || delta != 0 {
+					fail(i, "fail-fast binder with a recorded error: the custom function was invoked %d times (destination %v -> %v, %d new errors)", invoked, initVals, vals2, delta)
+				}
+			case len(vals) == 0:
+				tags = append(tags, "absent")
+				want := 0
+				if cu.Must {
+					want = 1
+				}
+				if invoked != 0 || changed {
+					fail(i, "CustomFunc: absent parameter but the function was invoked %d times (destination %v -> %v)", invoked, initVals, vals2)
+				}
+				if delta != want {
+					fail(i, "CustomFunc: absent parameter recorded %d errors, want %d", delta, want)
+				}
+			default:
+				tags = append(tags, "custom-invoked")
+				if invoked != 1 {
+					fail(i, "CustomFunc: parameter present but the function was invoked %d times", invoked)
+				} else if !c08Same(got, false, vals, false) {
+					fail(i, "CustomFunc: the function received %q, the request carries %q", got, vals)
+				}
+				nontrivial = true
+			}
+			pending += delta
 		case "failfast":
 			b.FailFast(op.Flag)
 			failFast = op.Flag
@@ -639,6 +884,7 @@ func c08RunVB(c *c08Case) (res Result) {
 				if !errors.As(err, &be) || be.Code != http.StatusBadRequest {
 					fail(i, "BindError() is not a 400-class BindingError: %v", err)
 				}
+				render(i, err)
 			}
 			pending = 0
 			tags = append(tags, "op:binderror")
@@ -648,6 +894,13 @@ func c08RunVB(c *c08Case) (res Result) {
 			obs = append(obs, wInt(len(errs)))
 			if len(errs) != pending {
 				fail(i, "BindErrors() returned %d errors, %d were recorded since the last reset", len(errs), pending)
+			}
+			for _, e := range errs {
+				var be *echo.BindingError
+				if !errors.As(e, &be) || be.Code != http.StatusBadRequest {
+					fail(i, "BindErrors() holds an error that is not a 400-class BindingError: %v", e)
+				}
+				render(i, e)
 			}
 			pending = 0
 			tags = append(tags, "op:binderrors")
@@ -670,6 +923,9 @@ func c08RunVB(c *c08Case) (res Result) {
 					tags = append(tags, "missing-method")
 					continue
 				}
+			}
+			if mi.Fam == famTime {
+				mi.Ty = tbl.layout(cl.Layout)
 			}
 			dest := reflect.New(mi.T)
 			if mi.T.Kind() == reflect.Slice {
@@ -699,6 +955,8 @@ func c08RunVB(c *c08Case) (res Result) {
 					mv.Call([]reflect.Value{name, dest.Elem(), reflect.ValueOf(cl.Delim)})
 				case isDelim:
 					mv.Call([]reflect.Value{name, dest, reflect.ValueOf(cl.Delim)})
+				case mi.Extra:
+					mv.Call([]reflect.Value{name, dest, reflect.ValueOf(cl.Layout)})
 				default:
 					mv.Call([]reflect.Value{name, dest})
 				}
@@ -746,7 +1004,11 @@ func c08RunVB(c *c08Case) (res Result) {
 				}
 			}
 			for _, p := range pieces {
-				tbl.addFor(mi.Fam, mi.E, p)
+				if mi.Fam == famTime {
+					tbl.addTime(cl.Layout, p)
+				} else {
+					tbl.addFor(mi.Fam, mi.E, p)
+				}
 			}
 
 			// ---- oracle: the property itself
@@ -786,7 +1048,7 @@ func c08RunVB(c *c08Case) (res Result) {
 				var dens []string
 				allOK := true
 				for _, p := range pieces {
-					d, ok := c08Denote(mi.Fam, mi.E, p)
+					d, ok := c08DenoteL(mi.Fam, mi.E, cl.Layout, p)
 					if !ok {
 						allOK = false
 					}
@@ -849,7 +1111,7 @@ func c08RunVB(c *c08Case) (res Result) {
 
 type c08FieldInfo struct {
 	Name string
-	Wrap int // 0 scalar 1 ptr 2 slice 3 slice of ptr 4 ptr to slice
+	Wrap int // 0 scalar 1 ptr 2 slice 3 slice of ptr 4 ptr to slice 5 multi-value unmarshaler 6 pointer to one
 	Fam  int
 	Ty   int
 	E    reflect.Type
@@ -896,6 +1158,8 @@ func c08Catalogue() (reflect.Type, []c08FieldInfo) {
 		for _, n := range []int{1, 4, 7, 12} { // *[]int8, *[]int64, *[]uint16, *[]float64
 			all = append(all, ft{"pl" + scal[n].n, reflect.PtrTo(reflect.SliceOf(scal[n].t))})
 		}
+		// destinations implementing only the multi-value interface UnmarshalParams([]string)
+		all = append(all, ft{"mu", c08MultiT}, ft{"pmu", reflect.PtrTo(c08MultiT)})
 		var fields []reflect.StructField
 		c08CatByN = map[string]c08FieldInfo{}
 		for i, f := range all {
@@ -904,6 +1168,10 @@ func c08Catalogue() (reflect.Type, []c08FieldInfo) {
 			info := c08FieldInfo{Name: f.n, Idx: i}
 			t := f.t
 			switch {
+			case t == c08MultiT:
+				info.Wrap = 5
+			case t == reflect.PtrTo(c08MultiT):
+				info.Wrap, t = 6, c08MultiT
 			case t.Kind() == reflect.Ptr && t.Elem().Kind() == reflect.Slice:
 				info.Wrap, t = 4, t.Elem().Elem()
 			case t.Kind() == reflect.Slice && t.Elem().Kind() == reflect.Ptr:
@@ -915,6 +1183,9 @@ func c08Catalogue() (reflect.Type, []c08FieldInfo) {
 			}
 			info.E = t
 			info.Fam, info.Ty, _ = c08Classify("", t, true)
+			if t == c08MultiT {
+				info.Fam = famUnm
+			}
 			c08CatInfo = append(c08CatInfo, info)
 			c08CatByN[f.n] = info
 		}
@@ -933,6 +1204,10 @@ func c08FVal(info c08FieldInfo, v reflect.Value) (wire string, vals []string, st
 		if v.Kind() == reflect.Slice && v.IsNil() {
 			return "3", nil, "ptrnil"
 		}
+	}
+	if v.Type() == c08MultiT {
+		vals = append(vals, v.Interface().(c08Multi).V...)
+		return "2 " + c08SVals(info.Fam, vals), vals, "many"
 	}
 	if v.Kind() == reflect.Slice {
 		if v.IsNil() {
@@ -981,6 +1256,9 @@ func c08Prepopulate(v reflect.Value) {
 			return
 		case c08TextT:
 			x.Set(reflect.ValueOf(c08Text{V: "init"}))
+			return
+		case c08MultiT:
+			x.Set(reflect.ValueOf(c08Multi{V: []string{"init"}}))
 			return
 		}
 		switch x.Kind() {
@@ -1239,6 +1517,9 @@ func c08RunStruct(c *c08Case) (res Result) {
 		}
 		if info.Wrap == 4 && init.state == "nil" && state == "ptrnil" {
 			okState = true
+		}
+		if info.Wrap == 6 && init.state == "nil" && state == "many" && len(vals) == 0 {
+			okState = true // the pointer is allocated before UnmarshalParams is called
 		}
 		if !okState {
 			fail("field %s: held %v (%s) before, texts denote %v, holds %v (%s) after a failed Bind", info.Name, init.vals, init.state, allDens, vals, state)
